@@ -451,15 +451,20 @@ class PcSpeakerDevice(Device):
         self.impl.pcspkr_sound(freq, duration)
 
 
+_NUMERAL = re.compile(
+    r'[+-]?(\d+\.?\d*|\.\d+)([eEdD][+-]?\d+)?', re.ASCII)
+_INTEGRAL_NUMERAL = re.compile(r'[+-]?\d+', re.ASCII)
+
+
 def parse_float(s):
     """Convert the text of a number to a float. The exponent of a
     DOUBLE is written with a D (PRINT shows 1.5D+20); that form is
     accepted as well as the E form. Raises ValueError if the text is
-    not a number."""
+    not a number (Python's own float() also takes 1_0, nan, inf ...)."""
     text = s.strip()
-    if re.fullmatch(r'[+-]?(\d+\.?\d*|\.\d+)[dD][+-]?\d+', text):
-        text = text.replace('d', 'e').replace('D', 'e')
-    return float(text)
+    if not _NUMERAL.fullmatch(text):
+        raise ValueError(f'Not a number: {s}')
+    return float(text.replace('d', 'e').replace('D', 'e'))
 
 
 def parse_integral(s):
@@ -467,13 +472,13 @@ def parse_integral(s):
     numeric constant to an INTEGER/LONG variable: a numeral with a
     fractional part or an exponent is rounded (half to even). Raises
     ValueError if the text is not a number."""
-    try:
-        return int(s)
-    except ValueError:
-        value = parse_float(s)
-        if value != value or value in (float('inf'), float('-inf')):
-            raise ValueError(f'Not a finite number: {s}')
-        return int(round(value))
+    text = s.strip()
+    if _INTEGRAL_NUMERAL.fullmatch(text):
+        return int(text)
+    value = parse_float(text)
+    if value != value or value in (float('inf'), float('-inf')):
+        raise ValueError(f'Not a finite number: {s}')
+    return int(round(value))
 
 
 class DataDevice(Device):
